@@ -167,6 +167,33 @@ def run(ctx: Ctx, tier: str) -> Result:
         res.fail(Finding("C07.INJECT", sf.qname, st_, sf.loc(st_),
                          "the action's identity cache is replaced after the snapshot was collected: a deferred capture renumbers from 1 and its "
                          "entries overwrite / duplicate the snapshot's table entries"))
+    # ... and the deferred completion records the captured value with the context (and so the identity cache) that collected
+    # the frames: a context made for the completing event starts numbering at 1 again
+    dcb = p.cls("deep.processor.context.snapshot_action.DeferredSnapshotActionCallback")
+    dproc = dcb.lookup("process")
+    dinit = dcb.lookup("__init__")
+    pcv = acx.lookup("process_capture_variable")
+    caps_ = [c for c in t.calls_in(dproc) if pcv in t.resolve_call(c, dproc).repo]
+    for c in caps_:
+        recv = c.func.value if isinstance(c.func, ast.Attribute) else None
+        okr = False
+        why = "its receiver `%s` is not the context kept from the triggering event" % (norm(recv) if recv is not None else "?")
+        if isinstance(recv, ast.Attribute) and isinstance(recv.value, ast.Name) and recv.value.id == "self":
+            st_ = [(sf, v) for sf, v, _ in t.field_stores(dcb, recv.attr)]
+            if st_ and all(sf is dinit and isinstance(v, ast.Name) and v.id in dinit.params for sf, v in st_):
+                pn_ = st_[0][1].id
+                sites = [(f_, k) for f_ in p.functions.values() for k in t.calls_in(f_) if dcb in t.resolve_call(k, f_).ctor]
+                args_ = [ctx.expand.expand(t.bind_args(dinit, k).get(pn_), f_) for f_, k in sites if t.bind_args(dinit, k).get(pn_) is not None]
+                # created by the snapshot action (or its result) with the action context itself
+                okr = bool(args_) and all(a and all(x in ("@self", "@self.action_context", "@self._action_context") or x.endswith(".action_context") for x in a) for a in args_)
+                why = "the callback is created with %s for its context" % args_
+        if okr:
+            res.ok("C07.INJECT", {"deferred capture recorded with the collecting context": dproc.loc(c)})
+        else:
+            res.fail(Finding("C07.INJECT", dproc.qname, c, dproc.loc(c), "the deferred capture is recorded with another context than the one that collected the frames (%s): its identity "
+                             "cache is empty, ids start at 1 again and the captured value's entries overwrite / duplicate the snapshot's" % why))
+    if not caps_:
+        res.fail(Finding("C07.INJECT", dproc.qname, "<process_capture_variable(event, arg)>", dproc.loc(), "the deferred completion does not record the captured value through the action context"))
     # a table filled by an evaluation that issued ids must be handed on (its ids stay in the cache)
     for fn in ("eval_watch", "process_capture_variable"):
         f_ = acx.lookup(fn)
@@ -227,6 +254,17 @@ def run(ctx: Ctx, tier: str) -> Result:
             src = ctx.expand.expand(c.args[0], f)
             okid = bool(src) and all(x == "None" or ".check_id(" in x or ".new_var_id(" in x or x.endswith(".vid") or x.endswith("._vid")
                                      or ("." + cfield + "[") in x or ("." + cfield + ".get(") in x for x in src)
+            # an id picked out of a list by position needs the list to be non-empty: when the budget is exhausted nothing was
+            # recorded, and an IndexError here takes the whole (deferred) snapshot with it instead of yielding `not recorded`
+            picks = [n for n in ast.walk(c.args[0]) if isinstance(n, ast.Subscript) and isinstance(n.slice, ast.Constant) and isinstance(n.slice.value, int)
+                     and isinstance(n.value, (ast.Name, ast.Attribute))]
+            unguarded = [n for n in picks if not any(norm(n.value) in norm(c_) for c_, _pol in paths.conditions(p, paths.stmt_of(p, c), f))
+                         and ctx.guards.catching_try(c, f, "LookupError") is None]
+            if unguarded:
+                res.fail(Finding("C07.OPTIONAL", f.qname, unguarded[0], f.loc(unguarded[0]), "the id of the reference is taken from `%s` without a test that the list holds anything: when "
+                                 "the variable budget was exhausted before the value nothing was recorded, the lookup raises and the snapshot being completed is lost "
+                                 "(the identity cache answers None for `not recorded`)" % norm(unguarded[0])))
+                continue
             if okid:
                 res.ok("C07.OPTIONAL", {"VariableId id": src[0][:70], "in": f.qname})
             else:
